@@ -831,6 +831,12 @@ class Executor:
                 fr, fn, loc, pj = p[1]
                 return ("ref", (fr, fn, loc, pj + (("v", "Some"), ("f", 0, ""))), True)
             return None
+        m = re.match(r"^(?:std::option::|std::result::)?(Option|Result)::<.*>::(is_none|is_some|is_ok|is_err)$", c)
+        if m:
+            self.summaries_used.add("Option::is_none/is_some, Result::is_ok/is_err")
+            d = disc_of(self.deref(st, args[0]), E)
+            want = {"is_none": 0, "is_some": 1, "is_ok": 0, "is_err": 1}[m.group(2)]
+            return self.binop("Eq", d, C("int", want))
         m = re.match(r"^(?:std::option::)?Option::<.*>::(ok_or_else|ok_or)(?:::<.*>)?$", c)
         if m:
             self.summaries_used.add("Option::ok_or / ok_or_else")
@@ -912,7 +918,15 @@ class Executor:
                 body, assigned = li
                 for loc in sorted(assigned):
                     nm = func.debug.get(loc)
-                    st.vals[(fr, loc)] = ("sym", "%s#loop%d_%d%s" % (func.short, bbid, loc, ("=" + nm) if nm else ""))
+                    base = "%s#loop%d_%d%s" % (func.short, bbid, loc, ("=" + nm) if nm else "")
+                    flds = assigned[loc]
+                    if flds is None or (fr, loc) not in st.vals:
+                        st.vals[(fr, loc)] = ("sym", base)
+                    else:
+                        cur = st.vals[(fr, loc)]
+                        for i in sorted(flds):
+                            cur = setproj(cur, ("f", i), ("sym", "%s.%d" % (base, i)), self.enums)
+                        st.vals[(fr, loc)] = cur
                     st.havocked.add((fr, loc))
                 st.heap = {}
                 st.epoch = next(self.sym_seq)
